@@ -168,6 +168,13 @@ func (e *Ev) evGhostCall(x *ast.CallExpr) Val {
 		if !ok {
 			e.unsupp(x, "inlang needs a language name")
 		}
+		if _, ok := fx.prog.spec.Langs[lid.Name]; !ok && strings.HasPrefix(lid.Name, "anyof_") {
+			var cls strings.Builder
+			for _, h := range strings.Split(strings.TrimPrefix(lid.Name, "anyof_"), "_") {
+				cls.WriteString("\\x" + h)
+			}
+			fx.prog.registerSpecRegex(lid.Name, "(?s)["+cls.String()+"]")
+		}
 		if _, ok := fx.prog.spec.Langs[lid.Name]; !ok {
 			if !strings.HasPrefix(lid.Name, "re_") {
 				panic(unsupported{"unknown language " + lid.Name})
@@ -222,6 +229,17 @@ func (e *Ev) evGhostCall(x *ast.CallExpr) Val {
 		fx.specUsed["fields_n"] = true
 		sq := e.seqArg(arg(0), x)
 		return VStrs{B: "(fields_b " + sq + ")", O: "(fields_o " + sq + ")", L: "(fields_l " + sq + ")", N: "(fields_n " + sq + ")"}
+	case "single":
+		// single(s): the one-element []string{s}
+		sv, ok := arg(0).(VStr)
+		if !ok {
+			e.unsupp(x, "single needs a string")
+		}
+		if sv.Lit != nil && sv.B == "lit!" {
+			sv = fx.strLit(*sv.Lit)
+		}
+		z := fx.nilStrs()
+		return VStrs{B: "(store " + z.B + " 0 " + sv.B + ")", O: "(store " + z.O + " 0 " + sv.O + ")", L: "(store " + z.L + " 0 " + sv.L + ")", N: "1"}
 	case "sameslice":
 		a, ok1 := arg(0).(VStrs)
 		b, ok2 := arg(1).(VStrs)
@@ -244,6 +262,12 @@ func (e *Ev) evGhostCall(x *ast.CallExpr) Val {
 			return VInt{a.Tag}
 		}
 		e.unsupp(x, "tag of %T", arg(0))
+	case "basetag":
+		// dynamic type after dereferencing pointers (what safehtmlutil.Indirect yields)
+		if a, ok := arg(0).(VIface); ok {
+			return VInt{fmt.Sprintf("(ite (and (<= %d %s) (< %s %d)) (- %s %d) %s)", tagPtrBase+1, a.Tag, a.Tag, tagPtrBase+10, a.Tag, tagPtrBase, a.Tag)}
+		}
+		e.unsupp(x, "basetag of %T", arg(0))
 	case "contents":
 		if a, ok := arg(0).(VIface); ok {
 			return a.S
@@ -305,6 +329,9 @@ func (fx *FuncCtx) iteValPure(c Term, a, b Val) Val {
 		}
 	case VErr:
 		return VErr{sIte(c, x.T, b.(VErr).T)}
+	case VStrs:
+		y := b.(VStrs)
+		return VStrs{B: sIte(c, x.B, y.B), O: sIte(c, x.O, y.O), L: sIte(c, x.L, y.L), N: sIte(c, x.N, y.N)}
 	}
 	panic(unsupported{fmt.Sprintf("ite over %T", a)})
 }
@@ -457,13 +484,19 @@ func (p *Prog) specFuncDef(sf *SpecFunc) (def string, uses map[string]bool, lang
 			hasStr = true
 		}
 	}
-	if false && hasStr && !sf.Rec && !p.bodyHasQuant(body, fx.specUsed) {
+	_ = hasStr
+	if sf.Opaque && !sf.Rec {
 		// opaque encoding: the application itself is the trigger of quantifiers over positions
 		var sorts, names []string
 		for _, pa := range sf.Params {
 			if pa.Type == "str" {
 				sorts = append(sorts, sortArr, sortInt, sortInt)
 				names = append(names, pa.Name+"_b", pa.Name+"_o", pa.Name+"_l")
+				continue
+			}
+			if pa.Type == "strs" {
+				sorts = append(sorts, sortArrArr, sortArr, sortArr, sortInt)
+				names = append(names, pa.Name+"_sb", pa.Name+"_so", pa.Name+"_sl", pa.Name+"_n")
 				continue
 			}
 			sorts = append(sorts, specSort(pa.Type))
